@@ -455,7 +455,13 @@ func c18Raw(c *Ctx) {
 		c.Check(okReq, "raw/generate-signature/request", "the request carries the signer's key id, the encoded described key spec, the hash bound to it and exactly the payload to sign", w.FnPos(PS), fmt.Sprintf("request fields: %v", req))
 		okRet := len(s.Exits) > 0
 		for _, ex := range s.Exits {
-			if desc(ex.Ret.Results[0]) != gd+"#0.Signature" || !strings.HasPrefix(desc(ex.Ret.Results[1]), "call:ngo/signer.") {
+			okChain := false
+			for _, ci := range allCalls(PS) {
+				if cc, isC := ci.(*ssa.Call); isC && len(cc.Call.Args) == 1 && desc(cc.Call.Args[0]) == gd+"#0.CertificateChain" && desc(ex.Ret.Results[1]) == res(cc, 0) {
+					okChain = true
+				}
+			}
+			if desc(ex.Ret.Results[0]) != gd+"#0.Signature" || !okChain {
 				okRet = false
 			}
 		}
@@ -725,9 +731,17 @@ func c18Primitive(c *Ctx) {
 						continue
 					}
 					d := desc(call.Call.Args[i])
-					okA := strings.HasPrefix(d, "call:(*ngo/signer.PluginSigner).") && strings.HasSuffix(d, "#0")
+					// result 0 of a method of the plugin signer (the describe-key lookup), its error tested before use
+					okA, okG := false, false
 					gl := w.Info(g).GuardsOf(call)
-					_, okG := hasLabel(gl, "EQ("+strings.TrimSuffix(d, "#0")+"#err,nil)")
+					if ex, isEx := loadOrigin(call.Call.Args[i]).(*ssa.Extract); isEx && ex.Index == 0 {
+						if kc, isC := ex.Tuple.(*ssa.Call); isC {
+							if kf := staticCallee(kc); kf != nil && kf.Signature.Recv() != nil && namedOf(kf.Signature.Recv().Type()) == "ngo/signer.PluginSigner" {
+								okA = true
+								okG = labelHas(gl, "EQ("+desc(kc)+"#err,nil)")
+							}
+						}
+					}
 					c.Check(okA && okG, "raw/primitive-signer/key-spec-origin/"+fnName(g), "the key spec handed to the raw path is the checked result of the describe-key lookup (its error tested before use)", w.InstrPos(call), fmt.Sprintf("argument %s, error tested=%v", d, okG))
 				}
 				// the descriptor is passed through unchanged
